@@ -469,21 +469,28 @@ func init() {
 										continue
 									}
 									n++
-									esc := false
+									esc := true
 									for _, o := range p.origins(vst.Val, OriginOpts{}) {
+										okO := false
 										if escapeCallOf(o) != nil {
-											esc = true
+											okO = true
 										}
 										// pass-through of an existing carrier attribute (trimmed copy)
 										if cl, ok := o.(*ssa.Call); ok && strings.HasPrefix(calleeName(&cl.Call), "strings.Trim") {
 											for _, oo := range p.origins(cl.Call.Args[0], OriginOpts{}) {
 												if f := loadedField(oo); f != nil && f.Name() == "Val" {
-													esc = true
+													okO = true
 												}
 											}
 										}
+										if cst, ok := o.(*ssa.Const); ok && cst.Value != nil {
+											okO = true // a constant (the empty string of an unset variable)
+										}
+										if !okO {
+											esc = false // on some path the stored value did not pass the escaper
+										}
 									}
-									c.check(esc, fmt.Sprintf("%s: v-text carrier value#%d", shortName(fn), n), p.instrPos(vst), "html.EscapeString(value)", "a value is stored under the v-text carrier, which the serialiser writes raw, without being escaped: v-text becomes v-html")
+									c.check(esc, fmt.Sprintf("%s: v-text carrier value#%d", shortName(fn), n), p.instrPos(vst), "html.EscapeString(value)", "on some path a value is stored under the v-text carrier, which the serialiser writes raw, without having passed html.EscapeString (e.g. only the plain-variable branch escapes, the filter/expression branch does not): v-text becomes v-html there")
 								}
 							}
 						}
@@ -704,6 +711,42 @@ func init() {
 				name string
 			}{{1, "TextNode"}, {3, "ElementNode"}, {5, "DoctypeNode"}} {
 				c.check(handled[nt.k], "serialiser handles "+nt.name, p.pos(ser.Pos()), "case present", "the serialiser has no case for "+nt.name+": such nodes are silently dropped from the output")
+			}
+			// a doctype carries its legacy identifiers as attributes `public` / `system`; each needs its keyword:
+			// PUBLIC "…" ["…"]   |   SYSTEM "…"   (a system identifier without a keyword is a bogus doctype)
+			if dt := p.Fn("vuego.renderDoctype"); dt != nil {
+				kw := map[string]bool{}
+				eachInstr(dt, func(in ssa.Instruction) {
+					for _, op := range in.Operands(nil) {
+						if op != nil && *op != nil {
+							if s, ok := constString(*op); ok {
+								if strings.Contains(s, "PUBLIC") {
+									kw["PUBLIC"] = true
+								}
+								if strings.Contains(s, "SYSTEM") {
+									kw["SYSTEM"] = true
+								}
+							}
+						}
+					}
+				})
+				reads := map[string]bool{}
+				for _, site := range callsIn(dt) {
+					if n := calleeName(site.Common()); n == "helpers.GetAttr" || n == "helpers.HasAttr" {
+						if k, ok := constString(site.Common().Args[1]); ok {
+							reads[k] = true
+						}
+					}
+				}
+				eachInstr(dt, func(in ssa.Instruction) {
+					if b, ok := in.(*ssa.BinOp); ok && b.Op == token.EQL {
+						if s, ok := constString(b.Y); ok {
+							reads[s] = true
+						}
+					}
+				})
+				c.check(!reads["public"] || kw["PUBLIC"], "doctype: PUBLIC keyword", p.pos(dt.Pos()), "written with the public identifier", "the public identifier is written without the PUBLIC keyword")
+				c.check(!reads["system"] || kw["SYSTEM"], "doctype: SYSTEM keyword", p.pos(dt.Pos()), "a system-only doctype gets the SYSTEM keyword", "a doctype with only a system identifier is written without the SYSTEM keyword (<!DOCTYPE html \"about:legacy-compat\">): the parser treats it as bogus, the identifier is lost and the page renders in quirks mode")
 			}
 		},
 	})
